@@ -569,6 +569,7 @@ func (comp) Run(h *core.History, scratch string) *core.Result {
 			ok, addedFlag := cache.AddTx(t.wrapped())
 			after := takeView(cache, senders)
 			res.AddObs(append([]string{core.Lbl(1, core.L(core.Bool(ok), core.Bool(addedFlag)))}, after.tokens(senders)...)...)
+			res.Insert(i, judgeViews(after, senders, true), core.Lbl(30, "n1"), core.Lbl(31, "n1"), core.Lbl(32, "n1"))
 			monitorAdd(res, i, cfg, specs, t, wasPooled, addedFlag, before, after, cache)
 			if !wasPooled && after.allListed()[string(t.hash)] && len(after.keys) == len(before.keys)+1 {
 				added = append(added, t)
@@ -581,6 +582,7 @@ func (comp) Run(h *core.History, scratch string) *core.Result {
 			removed := cache.RemoveTxByHash(hh)
 			after := takeView(cache, senders)
 			res.AddObs(append([]string{core.Lbl(1, core.Bool(removed))}, after.tokens(senders)...)...)
+			res.Insert(i, judgeViews(after, senders, false), core.Lbl(30, "n1"), core.Lbl(31, "n1"), core.Lbl(32, "n1"))
 			monitorRemove(res, i, specs, hh, removed, before, after)
 			monitorViews(res, i, specs, after, cache)
 			onlyAdds = false
@@ -588,6 +590,7 @@ func (comp) Run(h *core.History, scratch string) *core.Result {
 			cache.Clear()
 			after := takeView(cache, senders)
 			res.AddObs(after.tokens(senders)...)
+			res.Insert(i, judgeViews(after, senders, false), core.Lbl(30, "n1"), core.Lbl(31, "n1"), core.Lbl(32, "n1"))
 			if after.countTx != 0 || after.numBytes != 0 || after.countSenders != 0 || len(after.keys) != 0 {
 				res.Failf("C05", i, "after Clear: CountTx=%d NumBytes=%d CountSenders=%d |Keys|=%d, all must be 0", after.countTx, after.numBytes, after.countSenders, len(after.keys))
 			}
@@ -611,6 +614,13 @@ func (comp) Run(h *core.History, scratch string) *core.Result {
 		}
 	}
 	return res
+}
+
+// judgeViews feeds the implementation's views back to the model's executable C05/C06 predicates.
+func judgeViews(v *view, senders [][]byte, afterAdd bool) core.Op {
+	toks := v.tokens(senders) // 10=cnt 11=bytes 12=senders 13=keys 14=lists
+	strip := func(t string) string { return t[strings.IndexByte(t, '=')+1:] }
+	return core.NewOp(6, "judge views", strip(toks[0]), strip(toks[1]), strip(toks[2]), strip(toks[3]), strip(toks[4]), core.Bool(afterAdd))
 }
 
 // tokensOf returns the raw tokens of the arguments from position `from` (argument index) on.
